@@ -1,2 +1,20 @@
-/* placeholder until vsched lands */
+/* Force-included (-include) into every library / program source of the scheduler build variants:
+ * renames the pthread primitives the code uses onto the deterministic scheduler (engine/vsched.c). */
+#ifndef VF_PTHREAD_SHIM_H
+#define VF_PTHREAD_SHIM_H
+#ifndef __ASSEMBLER__
 #include <pthread.h>
+#include "vsched.h"
+#define pthread_mutex_init     vf_mutex_init
+#define pthread_mutex_destroy  vf_mutex_destroy
+#define pthread_mutex_lock     vf_mutex_lock
+#define pthread_mutex_unlock   vf_mutex_unlock
+#define pthread_cond_init      vf_cond_init
+#define pthread_cond_destroy   vf_cond_destroy
+#define pthread_cond_wait      vf_cond_wait
+#define pthread_cond_signal    vf_cond_signal
+#define pthread_cond_broadcast vf_cond_broadcast
+#define pthread_create         vf_create
+#define pthread_join           vf_join
+#endif
+#endif
